@@ -2,7 +2,7 @@
     conclusions say something (a bond really changes, a charge really moves, the additive branch is really taken, no
     ITS is really produced).  Intermediate values are top-level Definitions (no destructuring lets in statements). *)
 From Coq Require Import List NArith ZArith Bool Lia.
-From SK Require Import lib.Tok lib.LGraph model.C03_Model proof.C03_Proof proof.C03_Glue proof.C03_Backward proof.C03_ExplicitH.
+From SK Require Import lib.Tok lib.LGraph model.C03_Model proof.C03_Proof proof.C03_Glue proof.C03_Backward proof.C03_ExplicitH proof.C03_ExplicitShape proof.C03_Expand.
 Import ListNotations.
 Local Open Scope Z_scope.
 
@@ -138,4 +138,31 @@ Example ex_explicitH_conserve : forall e, elem_count e (fst (its_decompose ex_T_
 Proof.
   destruct ex_explicit_hyps as (H1 & H2 & H3 & H4 & H5 & H6).
   exact (proj1 (explicit_h_conserve ex_host_h ex_rc_h ex_m_h ex_T_h ex_T_h' _ H1 H2 H3 H4 H5 H6)).
+Qed.
+
+(** explicit path: CH3OH . NH3 expanded at the oxygen (new H atom 4), proton transfer written with an explicit H *)
+Definition ex_hb : hostg := h_to_explicit ex_host_h [2%N].
+Definition ex_rc_x : its :=
+  LG [(10%N, IN (at_ Oo 0 0) (at_ Oo 0 (-1)) 0 None); (11%N, same (at_ EL_H 0 0)); (12%N, IN (at_ Nn 0 0) (at_ Nn 0 1) 0 None)]
+     [(10%N, 11%N, (2, 0, 2)); (11%N, 12%N, (0, 2, -2))].
+Definition ex_m_x : mapping := [(10%N, 2%N); (11%N, 4%N); (12%N, 3%N)].
+Definition ex_T_x : its := match glue ex_hb ex_rc_x ex_m_x with Some t => t | None => LG [] [] end.
+Example ex_expand_host : node_ids ex_hb = [1%N; 2%N; 3%N; 4%N] /\ adj ex_hb 2%N 4%N = Some 2 /\
+                         option_map a_hc (label ex_hb 2%N) = Some 0 /\ NoDup (node_ids ex_host_h).
+Proof. split; [reflexivity|]. split; [reflexivity|]. split; [reflexivity|]. apply nodupb_NoDup. reflexivity. Qed.
+Example ex_explicit_path_hyps :
+  wf_hostb ex_host_h = true /\ wf_hostb (h_to_explicit ex_host_h [2%N]) = true /\ wf_rcb ex_rc_x = true /\
+  match_rcb (h_to_explicit ex_host_h [2%N]) ex_rc_x ex_m_x = true /\ glue (h_to_explicit ex_host_h [2%N]) ex_rc_x ex_m_x = Some ex_T_x /\
+  explicit_h ex_T_x = Some (ex_T_x, []) /\ balancedb ex_rc_x = true /\ adj ex_T_x 4%N 3%N = Some (0, 2, -2).
+Proof. vm_compute. repeat split; reflexivity. Qed.
+Example ex_explicit_path : forall e, elem_count e (fst (its_decompose ex_T_x)) = elem_count e (mol_of_host ex_host_h).
+Proof.
+  destruct ex_explicit_path_hyps as (H1 & H2 & H3 & H4 & H5 & H6 & _).
+  exact (proj1 (explicit_path ex_host_h [2%N] ex_rc_x ex_m_x ex_T_x ex_T_x [] H1 H2 H3 H4 H5 H6)).
+Qed.
+
+Example ex_explicitH_shape : gedges ex_T_h' = gedges ex_T_h ++ [(2%N, 4%N, (2, 0, 2)); (4%N, 3%N, (0, 2, -2))].
+Proof.
+  destruct ex_explicit_hyps as (_ & _ & _ & _ & _ & H6).
+  refine (proj1 (explicit_h_shape ex_T_h ex_T_h' _ _ H6)). apply nodupb_NoDup. reflexivity.
 Qed.
